@@ -429,8 +429,8 @@ Definition rx_table (pid : nat) : re * nat :=
 Definition rx_run (c : nat * str) : option (nat * nat * list (option (nat * nat))) :=
   let (r, ng) := rx_table (fst c) in
   let res := if Nat.eqb (fst c) 8
-             then match match_at U false (snd c) r 0 with Some (j, cp) => Some (0, j, cp) | None => None end
-             else search U false (snd c) r in
+             then match match_at URX false (snd c) r 0 with Some (j, cp) => Some (0, j, cp) | None => None end
+             else search URX false (snd c) r in
   match res with
   | Some (i, j, cp) => Some (i, j, map (fun n => cap_get n cp) (seq 1 ng))
   | None => None
